@@ -675,9 +675,9 @@ class _Morphological(_Algorithm):
         Raman Spectroscopy. 2017, 48(6), 878-883.
 
         """
-        if half_window is not None and half_window < 1:
-            raise ValueError('half-window must be greater than 0')
-        elif not 0 <= p <= 1:
+        if half_window is not None:
+            half_window = _check_half_window(half_window)
+        if not 0 <= p <= 1:
             raise ValueError('p must be between 0 and 1')
 
         y, weight_array, pspline = self._setup_spline(
